@@ -6,6 +6,11 @@ def run(tier, seed, replay=None):
     rep = Report("C08", tier, seed)
     prayerday_mc(rep, "C08", ["StagedIsPure", "FajrIshaOnly", "InvalidKeepsValid", "IdentityWhenAllValid", "UnflaggedIsConventional"],
                  roundings="{0, 2}", fajr_offsets="{0, 90000}")
+    # vacuity: the pre-fix unflagged interval-fallback Imsaak (D8) must violate the flag clause in the same model
+    cfg = write_cfg("C08legacy.cfg", {"LegacyUnwrap": "FALSE", "LegacyImsaak": "FALSE", "LegacyImsaakFlag": "TRUE", "Roundings": "{0}",
+                                      "FajrOffsets": "{0}", "NegOffsets": "FALSE"}, ["UnflaggedIsConventional"])
+    leg = tlc_must_fail("PrayerDay", cfg, expect="UnflaggedIsConventional", workers=6, heap="6g")
+    rep.add_tlc(leg)
     n = 300000 if tier == "thorough" else 15000
     info, events = validate_events(rep, "C08", ["--n", n], "c08", heap="10g" if tier == "thorough" else "6g")
     cells = set()
